@@ -113,7 +113,11 @@ fn weighted<'a>(r: &mut Rng) -> &'a str {
         10..=17 => r.pick(MACRO_STATS),
         18..=25 => r.pick(MACRO_FUNCS),
         26..=29 => r.pick(MNEMONICS),
-        30..=33 => r.pick(KEYWORDS),
+        30..=31 => r.pick(KEYWORDS),
+        32..=33 => {
+            let v = vocabulary();
+            return_str(v[r.below(v.len())].as_str())
+        }
         34..=41 => r.pick(LITERALS),
         42..=47 => r.pick(NUMERICS),
         48..=54 => r.pick(AMPS),
@@ -226,8 +230,58 @@ pub fn lookalikes() -> &'static Vec<String> {
         for kw in ["%ıf", "%elſe", "%ſtr", "%nrſtr", "%ſcan", "%ſubstr", "%ſysfunc", "%ındex", "%do ı=1 %to 2;", "%lıst", "%ſysevalf(1)"] {
             v.push(kw.to_string());
         }
+        // full-width (compatibility) twins of every significant ASCII symbol, digit and letter
+        for c in "()=,/;%&*'\".:+-<>|!xXeE019".chars() {
+            if let Some(ch) = char::from_u32(0xFEE0 + c as u32) {
+                v.push(ch.to_string());
+            }
+        }
         v.sort();
         v.dedup();
         v
     })
+}
+
+/// Every keyword spelling of the independent shape table (open code and macro), plus the words
+/// that are *not* keywords but would become one if a table were derived carelessly: the bare
+/// variant names of the token types (`allvar`, `nulldataset`, `macrosep`, `eof` ...).
+pub fn vocabulary() -> &'static Vec<String> {
+    static T: std::sync::OnceLock<Vec<String>> = std::sync::OnceLock::new();
+    T.get_or_init(|| {
+        use strum::IntoEnumIterator;
+        let mut v = Vec::new();
+        for (t, kws) in crate::oracle::shapes::keyword_table() {
+            let mac = crate::oracle::shapes::is_macro_kw_type(*t);
+            for k in kws {
+                let k = if mac { format!("%{}", k.to_ascii_lowercase()) } else { k.to_ascii_lowercase() };
+                v.push(k);
+            }
+        }
+        for t in sas_lexer::TokenType::iter() {
+            let name = format!("{t:?}");
+            let low = name.to_ascii_lowercase();
+            for pre in ["kwm", "kw"] {
+                if let Some(rest) = low.strip_prefix(pre) {
+                    v.push(rest.to_string());
+                    v.push(format!("%{rest}"));
+                    break;
+                }
+            }
+            v.push(low.clone());
+            v.push(format!("%{low}"));
+        }
+        v.sort();
+        v.dedup();
+        v
+    })
+}
+
+/// Names at and beyond the length limits a lexer might (wrongly) enforce.
+pub fn long_name(r: &mut Rng) -> String {
+    let n = r.pick(&[8usize, 13, 14, 31, 32, 33, 64, 255, 256, 257, 1000]);
+    let mut s = String::with_capacity(n);
+    for i in 0..n {
+        s.push((b'a' + (i % 26) as u8) as char);
+    }
+    s
 }
